@@ -22,7 +22,11 @@ ASSUMPTIONS = [
     "image for an endpoint is tested on every run, not proved (provenance hypothesis of encode_injective)",
     "the field tuple of an Address is read through its own accessors (Host() via inet_pton, Port(), IsV6(), %scope)",
 ]
-TRUSTED = ["tools/cxx2lean.py (source-derived tie, DESIGN.md 0.7): clang-14 JSON AST, chrono unit semantics read from the desugared types, unbounded Int for signed arithmetic (overflow = UB), abstract memcmp / container queries",
+TRUSTED = ["lean/SockModel/Drive/C13.lean: only the PARSING of transcript lines into the typed observations of Spec/C13.lean and the correspondence "
+           "checks (the property clauses themselves are Spec/C13.lean: specStep/specRun, proved to accept every trace of the model: spec_holds_on_model)",
+           "the environment part of the model scenario (Spec/C13.lean modelStep): the kernel reports one endpoint identically through getsockname / "
+           "getpeername / accept / recvfrom, except that an IPv6 socket sees an IPv4 endpoint v4-mapped (seenBy); the ports it assigns are non-zero",
+           "tools/cxx2lean.py (source-derived tie, DESIGN.md 0.7): clang-14 JSON AST, chrono unit semantics read from the desugared types, unbounded Int for signed arithmetic (overflow = UB), abstract memcmp / container queries",
            "libstdc++ std::map / std::unordered_map / hash<string_view> (modelled as sorted list / bucket list / function of the bytes)"]
 ALL_TAGS = ["connectvia", "parse", "pair", "port", "locals", "respell", "udp.plain", "udp.buf", "udp.async", "dgram",
             "acceptor.plain", "acceptor.async", "connect.plain", "connect.buf", "connect.async", "close",
@@ -207,7 +211,8 @@ def matches_known(k, ops, msg, tr):
     return False
 
 
-TECHNIQUE = "Lean 4 theorems (strict total order / equivalence / injectivity over all byte images) + model/implementation correspondence on real sockets"
+TECHNIQUE = ("Lean 4 theorems (strict total order / equivalence / injectivity over all byte images; the run-time predicate of Spec/C13.lean accepts every "
+             "trace of the model: spec_holds_on_model) + model/implementation correspondence on real sockets")
 LEVEL_TEXT = ("Machine-checked Lean 4 theorems about the byte-image model of SockAddrView: < (length, then memcmp) is irreflexive, "
               "transitive, asymmetric and total for ALL images, == is image identity and coincides with 'neither < nor >', hash "
               "respects == for every hash function of the image bytes (bytes beyond addrLen are irrelevant), the sockaddr_in/"
@@ -216,7 +221,16 @@ LEVEL_TEXT = ("Machine-checked Lean 4 theorems about the byte-image model of Soc
               "Tied to /repo on every run: Addresses of every provenance are created on real loopback/interface sockets, each raw "
               "image is compared with the canonical encoding of its accessor fields, every reported == != < hash, map lookup and "
               "iteration order with the model, and the property (== iff fields agree, trichotomy, transitivity on all triples, "
-              "hash, containers, endpoint agreement, non-zero bound port) is evaluated directly on the observations.")
-LEVEL_NOTE = ("Trusted: Lean kernel; axioms propext/Quot.sound/Classical.choice; hand-written model; harness. That different OS "
+              "hash, containers, endpoint agreement, non-zero bound port) is evaluated directly on the observations. That predicate is its own "
+              "module, lean/SockModel/Spec/C13.lean (typed observations Obs, total functions specStep/specRun, no model state, no raw image; the "
+              "driver only parses lines into Obs), and the theorem spec_holds_on_model (Props/C13.lean; = Addr.model_satisfies_spec) proves that it "
+              "accepts EVERY transcript the model produces: for every hash function of the image bytes and every history of any length of "
+              "report/port/respell/bind/bindFail/dgram/connect/connectvia/refused/close/cmp/cmpall/maps operations in the domain histOk (field "
+              "tuples well-formed with flowinfo 0, kernel-assigned ports in 1..65535, both ends of a datagram / connection of the same family). "
+              "So a spec verdict on the implementation is provably a difference between implementation and model, and the oracle is never "
+              "stricter than the model. Outside histOk lies exactly the dual-stack case of known finding F12, where the predicate rejects the "
+              "model's own trace (example in Spec/C13.lean).")
+LEVEL_NOTE = ("Trusted: Lean kernel; axioms propext/Quot.sound/Classical.choice; hand-written model; harness; the transcript parser of the driver. "
+              "That different OS "
               "interfaces yield the canonical image for one endpoint is tested (canonical-image check), not proved. libstdc++ containers "
               "are modelled. Only addresses that exist in the sandbox (loopback, eth0 incl. link-local) can come from sockets.")
